@@ -2,7 +2,7 @@
 """mut.py <CHECK-ID> <patch> [bin]: apply a patch to the scratch worktree /tmp/wt_main, rebuild the scratch
 harness copy /tmp/h_main, run the check against it (VERIF_BIN_DIR), then revert. Development aid only."""
 import os, subprocess, sys
-WT, H = "/tmp/wt_main", "/tmp/h_main"
+WT, H = os.environ.get("MUT_WT", "/tmp/wt_main"), os.environ.get("MUT_H", "/tmp/h_main")
 # the checks are run from a snapshot of /verif (a git worktree of some commit) when VERIF_SNAP is set,
 # so that /verif itself can be edited meanwhile
 SNAP = os.environ.get("VERIF_SNAP", "/verif")
